@@ -2,7 +2,7 @@
 //! shared SEQ alphabet used by C05 (and the Miri/ASan shards).
 //!
 //! Exhaustive enumeration of all operation sequences up to a length bound over
-//! a 13-letter alphabet on a topic with two subscriptions, plus random longer
+//! a 14-letter alphabet on a topic with two subscriptions, plus random longer
 //! SEQ histories; every step is checked against the exact reference model,
 //! including the stats of *every* subscription ("touches nothing else").
 
@@ -16,8 +16,9 @@ use crate::seq::Seq;
 use crate::world::*;
 use std::time::Duration;
 
-pub const LETTERS: [&str; 13] = [
+pub const LETTERS: [&str; 14] = [
     "publish", "pull1", "pullall", "ack_oldest", "ack_newest", "ack_stale", "ack_unknown", "ack_again", "nack_oldest", "modify_oldest_30", "adv_before", "adv_past", "ack_dead_then_live",
+    "ack_oldest_at_the_wire",
 ];
 
 fn enum_len(p: &EpParams) -> u32 {
@@ -134,6 +135,31 @@ pub async fn apply(seq: &mut Seq, c: &mut Ctx, letter: &str, sub: &str) {
                 }
                 None => {
                     seq.ack(sub, &["424242".to_string()]).await;
+                    c.odd_acks += 1;
+                }
+            }
+        }
+        "ack_oldest_at_the_wire" => {
+            // the oldest lease is acknowledged 2 ms before its deadline and the clock then jumps
+            // past the deadline before anything else can run
+            let ls = leases_sorted(seq, sub);
+            match ls.first() {
+                Some((id, l)) => {
+                    let now = seq.now();
+                    if l.lo > now + 3 * MS {
+                        seq.advance_to(l.lo - 2 * MS).await;
+                    }
+                    let certain = seq.now() < l.lo;
+                    let id = id.clone();
+                    seq.ack_then_jump(sub, &[id.clone()], Duration::from_millis(5)).await;
+                    c.last_acked = Some(id);
+                    if certain {
+                        c.effective_acks += 1;
+                        c.crossings_after_ack += 1;
+                    }
+                }
+                None => {
+                    seq.ack(sub, &["424247".to_string()]).await;
                     c.odd_acks += 1;
                 }
             }
@@ -286,7 +312,7 @@ async fn episode(p: &EpParams) -> EpReport {
     } else {
         let n = rng.range(40, 80);
         let ext = [
-            "ack_dead_then_live", "publish", "publish3", "pull1", "pullall", "ack_oldest", "ack_newest", "ack_stale", "ack_unknown", "ack_again", "nack_oldest", "modify_oldest_30", "modify_newest_3", "modify_oldest_700",
+            "ack_dead_then_live", "ack_oldest_at_the_wire", "publish", "publish3", "pull1", "pullall", "ack_oldest", "ack_newest", "ack_stale", "ack_unknown", "ack_again", "nack_oldest", "modify_oldest_30", "modify_newest_3", "modify_oldest_700",
             "adv_before", "adv_past", "pull1", "ack_oldest", "publish",
         ];
         let mut ls = Vec::new();
